@@ -22,6 +22,7 @@ THEOREMS = [
     "Mro.overrides_eq_super", "Mro.overriding_sound", "Mro.overriding_nodup", "Mro.overriding_duplicate_counterexample",
     "Mro.inherited_members_iff", "Mro.inherited_attribution",
     "Mro.early_eq_mro", "Mro.findEarly_eq_find", "Mro.findEarly_diamond_counterexample",
+    "Mro.docsource_eq_getdoc_partial", "Mro.docsource_private_name_counterexample",
     "Mro.second_pass_swapped_order_counterexample", "Mro.second_pass_canonical", "Mro.second_pass_trigger_independent", "Mro.second_pass_wrong_scope_counterexample",
 ]
 RULE = ("exhaustive: every hierarchy of n<=5 classes in which class i takes any ordered duplicate-free list of bases "
@@ -52,10 +53,20 @@ ASSUMPTIONS = [
     "in the `uses` stream the only builtin base is Exception (one external name in _STD_LIB_EXCEPTIONS): unresolved bases are opaque "
     "leaves for pydoctor, so relations between builtins (ValueError < Exception) are outside the property",
     "zopeinterface's extra docsources and Class._localNameToFullName/expandName's walk over the MRO (C04's layer) are not modelled here",
+    "which class-body statements become members (contents) is the builder's business (C03): the `uses` stream hands the REAL contents to "
+    "the model; the oracle judges the attribution against CPython's __dict__ (open findings override-by-name-assignment-not-a-member, "
+    "override-by-non-literal-assignment-dropped); which class a base EXPRESSION denotes (Base[T][int], an alias of Base[int]) is "
+    "likewise outside the models: direct oracle and CPython model only",
+    "an explicit `object` base is an opaque leaf for pydoctor: `class O(object, A)` (Python: TypeError) is outside the property "
+    "(its bases are not all documented classes)",
     "a class whose ancestor Python refused to create does not exist at run time; the oracle says nothing about it "
     "(pydoctor reports it too; both models agree on `reject`)",
 ]
 PARTIAL = {
+    "Mro.docsource_eq_getdoc_partial": "once Python's name mangling is taken into account, docstring source and 'overrides' equal attribute "
+                                       "lookup only for names that are not class-private (__x); for class-private names the statement is "
+                                       "false of the code (Mro.docsource_private_name_counterexample, open finding "
+                                       "class-private-name-related-across-classes)",
     "compute_mro.init_finalbaseobjects": "modelled as Mro.secondPass over the recorded AST-pass data (raw base names, "
                                          "_initialbaseobjects, resolveName table) and proved trigger independent; that the names "
                                          "denote the classes Python binds is checked by the direct oracle only (import cycles, all "
@@ -199,7 +210,7 @@ def DOCTEXT(rng, c: int, empty: bool) -> str:
 GENERIC = 1   # class id of typing.Generic in the full-path streams (object = 0, own classes from 2)
 
 
-def gen_project(rng, nclasses: int, generic_anywhere: bool = False, h=None) -> Dict[str, Any]:
+def gen_project(rng, nclasses: int, generic_anywhere: bool = False, h=None, variant: Optional[str] = None) -> Dict[str, Any]:
     """a hierarchy spread over modules, as source text.  ids: 0 object, 1 typing.Generic, 2.. classes C2..
     `h` (bases over classes 1..n, as the exhaustive enumeration yields them) is shifted by one when given."""
     first = 2
@@ -218,6 +229,9 @@ def gen_project(rng, nclasses: int, generic_anywhere: bool = False, h=None) -> D
     doc = {c: own[c] and rng.random() < 0.6 for c in ids}
     # an override with an explicitly empty / whitespace-only docstring (the idiom that suppresses an inherited one)
     empty = {c: doc[c] and rng.random() < 0.3 for c in ids}
+    nvariant = 0
+    if variant:
+        generic = {c: rng.random() < 0.7 for c in ids}
     bases: Dict[int, List[int]] = {}
     subs: Dict[int, List[int]] = {}
     mods: Dict[int, List[str]] = {m: ["from typing import Generic, TypeVar\n", "T = TypeVar('T')\n"] for m in range(nmod)}
@@ -241,7 +255,14 @@ def gen_project(rng, nclasses: int, generic_anywhere: bool = False, h=None) -> D
                         mods[m].append("from m%d import C%d as B%d\n" % (modof[j], j, j))
                         imported[m][j] = "B%d" % j
                 name = imported[m][j]
-            if generic[j] and rng.random() < 0.6:
+            if generic[j] and variant == "twice" and rng.random() < 0.7:
+                name += "[T][int]"            # subscripted twice: the same class as C[int]
+                nvariant += 1
+            elif generic[j] and variant == "alias" and rng.random() < 0.7:
+                mods[m].append("A%d_%d = %s[int]\n" % (j, c, name))     # an alias of the subscripted generic
+                name = "A%d_%d" % (j, c)
+                nvariant += 1
+            elif generic[j] and rng.random() < 0.6:
                 name += rng.choice(["[T]", "[int]"])
             exprs.append(name)
         blist = list(b)
@@ -259,7 +280,7 @@ def gen_project(rng, nclasses: int, generic_anywhere: bool = False, h=None) -> D
         mods[m].append(head + body)
     return {"n": nclasses, "bases": {str(c): bases[c] for c in ids}, "subs": {str(c): subs[c] for c in ids}, "modules": {"m%d" % m: "".join(mods[m]) for m in range(nmod)},
             "own": [c for c in ids if own[c]], "doc": [c for c in ids if doc[c]], "empty": [c for c in ids if empty[c]],
-            "order": rng.sample(["m%d" % m for m in range(nmod)], nmod)}
+            "order": rng.sample(["m%d" % m for m in range(nmod)], nmod), "variant": variant if nvariant else None}
 
 
 def project_tokens(p) -> Tuple[str, str, str]:
@@ -630,11 +651,13 @@ def py_cyclic(p, rng) -> Optional[Tuple[Dict[int, Dict[str, Any]], List[str]]]:
 
 # ------------------------------------------------------------------ consumers of the linearisation
 
-NAMES = ["m", "__new__", "__init__"]
+NAMES = ["m", "__new__", "__init__", "__p"]      # __p: a class-private name (mangled by Python)
+USES_SIG = {"name": "override-by-name-assignment-not-a-member", "call": "override-by-non-literal-assignment-dropped",
+            "private": "class-private-name-related-across-classes"}
 EXC = 1     # class id of the builtin `Exception` in the `uses` stream (object = 0, own classes from 2)
 
 
-def gen_uses(rng, nclasses: int, h=None) -> Dict[str, Any]:
+def gen_uses(rng, nclasses: int, h=None, flavour: Optional[str] = None) -> Dict[str, Any]:
     """one module; some classes derive from the builtin Exception (last base), members m / __new__ / __init__ as
     functions or plain attributes at random levels, some classes hidden through the privacy option"""
     first = 2
@@ -665,25 +688,37 @@ def gen_uses(rng, nclasses: int, h=None) -> Dict[str, Any]:
                     body.append("    def __new__(cls, a: int):\n        return super().__new__(cls)\n")
                 else:
                     body.append("    def __init__(self, b: str):\n        pass\n")
+            elif flavour == "name" and n == 0 and rng.random() < 0.8:
+                body.append("    %s = %s\n" % (NAMES[n], "modf" if n == 0 and rng.random() < 0.5 else "K0"))   # value is a NAME
+            elif flavour == "call" and n == 0 and rng.random() < 0.8:
+                body.append("    %s = make()\n" % NAMES[n])                                            # value is a call
             else:
                 body.append("    %s = None\n" % NAMES[n])
-        if 0 not in names and rng.random() < 0.06:
+        if flavour == "private" and rng.random() < 0.6:
+            names.append(3)
+            funcs[c].append(3)
+            body.append("    def __p(self):\n        %s\n" % ('"doc of C%d"' % c if rng.random() < 0.5 else "pass"))
+        if flavour is None and 0 not in names and rng.random() < 0.06:
             # epytext field naming a member the class does not define: pydoctor creates a hidden phantom Attribute
             phantom.append(c)
             body.insert(0, '    """\n    @type m: int\n    """\n')
         lines.append("class C%d%s:\n%s" % (c, "(%s)" % ", ".join(exprs) if exprs else "", "".join(body) or "    pass\n"))
     hidden = [c for c in ids if rng.random() < 0.12]
-    return {"n": nclasses, "phantom": phantom, "bases": {str(c): bases[c] for c in ids}, "contents": {str(c): contents[c] for c in ids},
+    if flavour:
+        lines.insert(0, "K0 = 1\ndef modf(self):\n    \"doc of modf\"\ndef make():\n    return lambda self: None\n")
+    return {"n": nclasses, "phantom": phantom, "flavour": flavour, "bases": {str(c): bases[c] for c in ids}, "contents": {str(c): contents[c] for c in ids},
             "funcs": {str(c): funcs[c] for c in ids}, "hidden": hidden, "modules": {"m0": "".join(lines)}}
 
 
-def uses_request(p, order: List[int]) -> str:
+def uses_request(p, order: List[int], cont: Dict[int, List[int]], funcs: Dict[int, List[int]]) -> str:
+    """CONT / FUNC are what the real class bodies recorded (which assignment becomes a member is the builder's business,
+    C03); the model is about what the consumers of the linearisation make of these contents"""
     ids = sorted(int(c) for c in p["bases"])
     h = [[], []] + [p["bases"][str(c)] for c in ids]
     sb = [[], []] + [[0] * len(p["bases"][str(c)]) for c in ids]
     ph = p.get("phantom", [])
-    ct = [[], []] + [([0] if c in ph else []) + p["contents"][str(c)] for c in ids]   # the phantom is created first
-    fn = [[], []] + [p["funcs"][str(c)] for c in ids]
+    ct = [[], []] + [cont[c] for c in ids]
+    fn = [[], []] + [funcs[c] for c in ids]
     return "mro uses %s %s %d %d %s %s %s %s %s" % (ltoken(h), ltoken(sb), EXC, EXC, ltoken(ct), ltoken(fn),
                                                     ",".join(map(str, p["hidden"])) or "-", ",".join(map(str, order)) or "-",
                                                     ",".join(map(str, ph)) or "-")
@@ -727,11 +762,19 @@ def pd_uses(p) -> Tuple[Optional[str], List[int], Dict[int, Dict[str, Any]], Opt
             if kids and kids[0] == "overrides ":
                 ov = kids[1].children[0].children[0].rsplit(".", 2)[-2]
         over = [ident(x) for x in util.overriding_subclasses(o, "m")]
-        inh = [(ident(x.parent), NAMES.index(x.name)) for x in util.inherited_members(o)]
+        inh = [(ident(x.parent), NAMES.index(x.name)) for x in util.inherited_members(o) if x.name in NAMES]
+        r_cont = [NAMES.index(n) for n in o.contents if n in NAMES]
+        r_func = [NAMES.index(n) for n, x in o.contents.items() if n in NAMES and isinstance(x, model.Function)]
+        povr, pdoc = None, "x"
+        if "__p" in o.contents:
+            for t in pages.get_override_info(o, "__p"):
+                povr = "".join(str(k) for k in t.children if isinstance(k, str)) or "overrides/overridden"
+            sd = model.get_docstring(o.contents["__p"])[1]
+            pdoc = ident(sd.parent) if sd is not None else None
         r = {"exc": bool(model.is_exception(o)), "kind_exc": o.kind is model.DocumentableKind.EXCEPTION,
              "ctor": (ident(ctor.parent), NAMES.index(ctor.name)) if ctor is not None else None,
              "overrides": int(ov[1:]) if ov else None, "over": over, "inh": inh,
-             "params": list(o.constructor_params)}
+             "params": list(o.constructor_params), "cont": r_cont, "func": r_func, "p_override_info": povr, "p_docsrc": pdoc}
         res[cs] = r
         out.append(":".join([
             show([ident(x) for x in o.mro(False, True)]), show([ident(x) for x in o.mro(True, False)]),
@@ -746,6 +789,9 @@ def py_uses(p) -> Dict[int, Dict[str, Any]]:
     mod = types.ModuleType("m0")
     status: Dict[int, str] = {}
     for st in ast.parse(p["modules"]["m0"]).body:
+        if not isinstance(st, ast.ClassDef):
+            exec(compile(ast.Module(body=[st], type_ignores=[]), "m0", "exec"), mod.__dict__)
+            continue
         try:
             exec(compile(ast.Module(body=[st], type_ignores=[]), "m0", "exec"), mod.__dict__)
             status[int(st.name[1:])] = "ok"
@@ -776,6 +822,7 @@ def py_uses(p) -> Dict[int, Dict[str, Any]]:
 
         def owner(name, seq):
             return next((k for k in seq if defines(k, name)), None)
+        pname = "_%s__p" % t.__name__
         ctor = None
         k = owner("__new__", gens)
         if k is not None:
@@ -787,10 +834,16 @@ def py_uses(p) -> Dict[int, Dict[str, Any]]:
                 ctor = (ident[k], 2)
         ov = owner("m", gens[1:])
         inh = set()
-        for i, n in enumerate(NAMES):
+        for i, n in enumerate(NAMES[:3]):
             k = owner(n, gens)
             if k is not None and k is not t and ident[k] not in hidden:
                 inh.add((ident[k], i))
+        for k in gens[1:]:      # a class-private name is a different attribute in every class: nothing masks it
+            if "_%s__p" % k.__name__ in k.__dict__ and ident[k] not in hidden:
+                inh.add((ident[k], 3))
+        pdoc: Any = "x"
+        if pname in t.__dict__:
+            pdoc = c if t.__dict__[pname].__doc__ is not None else None
         over = None
         if all_ok:
             # D overrides c.m: D defines m, and some chain of class statements c <- p1 <- ... <- D has no class in
@@ -806,13 +859,20 @@ def py_uses(p) -> Dict[int, Dict[str, Any]]:
                             down(d)
             down(t)
         res[c] = {"exc": issubclass(t, BaseException), "ctor": ctor, "overrides": ident[ov] if ov else None,
-                  "inh": inh, "over": over}
+                  "inh": inh, "over": over, "p_docsrc": pdoc}
     return res
 
 
 def uses_oracle(ctx: Ctx, p, pd, py) -> None:
     real_ctx = ctx
-    if p.get("phantom"):
+    if p.get("flavour"):
+        sig0 = USES_SIG[p["flavour"]]
+
+        class _Fl:
+            def fail(self, sig, inp, what):
+                real_ctx.fail(sig0, inp, what + " [" + sig + "]")
+        ctx = _Fl()   # type: ignore
+    elif p.get("phantom"):
         # a hidden phantom Attribute made from an `@type name:` field masks the inherited member of that name:
         # every attribution failure in such a project is classified under that cause
         class _Ph:
@@ -830,6 +890,10 @@ def uses_oracle(ctx: Ctx, p, pd, py) -> None:
             ctx.fail("uses:overrides", inp, f"C{c}.m 'overrides' {a['overrides']}, super() finds {b['overrides']}")
         if set(a["inh"]) != b["inh"] or len(set(a["inh"])) != len(a["inh"]):
             ctx.fail("uses:inherited-member-attribution", inp, f"C{c}: inherited table {a['inh']}, attribute lookup {sorted(b['inh'])}")
+        if a["p_docsrc"] != b["p_docsrc"]:
+            ctx.fail("uses:private-docsource", inp, f"C{c}.__p: docstring taken from {a['p_docsrc']}, Python's _C{c}__p has {b['p_docsrc']}")
+        if a["p_override_info"]:
+            ctx.fail("uses:private-override-info", inp, f"C{c}.__p is shown as '{a['p_override_info']}…' but _C{c}__p is unrelated to any other class")
         if b["over"] is not None:
             if set(a["over"]) != b["over"]:
                 ctx.fail("uses:overridden-in", inp, f"C{c}.m overridden in {a['over']}, by the class statements {sorted(b['over'])}")
@@ -1136,11 +1200,23 @@ def full_lines(p, pd, py) -> Tuple[str, str]:
 
 
 def full_oracle(ctx: Ctx, p, pd, py, stream: str) -> None:
+    if p.get("variant"):
+        # the base expression is lost by the builder: every consequence in such a project is one finding
+        real_ctx, sig0 = ctx, {"twice": "generic-base-subscripted-twice-lost", "alias": "generic-base-via-alias-of-subscript-lost"}[p["variant"]]
+
+        class _V:
+            def fail(self, sig, inp, what):
+                real_ctx.fail(sig0, inp, what + " [" + sig + "]")
+
+            def count(self, *a):
+                real_ctx.count(*a)
+        ctx = _V()   # type: ignore
     for cs in p["bases"]:
         c = int(cs)
         a, b = pd[c], py[c]
         inp = {"project": p, "class": c}
         pre = "" if stream == "full" else stream + ":"
+
         if a.get("missing"):
             ctx.fail(pre + "class-not-documented", inp, f"C{c} is not in the system")
             continue
@@ -1332,6 +1408,33 @@ def run(ctx: Ctx) -> None:
     ctx.compare("System~Mro(import cycles, all orders)", creq, cout, cpay)
     ctx.compare("init_finalbaseobjects~Mro.secondPass", sreq, sout, spay)
 
+    # ---- generic bases written Base[T][int] or through an alias `A = Base[int]` (which class the base expression denotes
+    #      is the builder's / name resolution's business: direct oracle and the CPython model only)
+    gq, go, gp = [], [], []
+    vprojs = load_corpus("variant")
+    ctx.count("corpus:variant", len(vprojs))
+    for variant in ("twice", "alias"):
+        for _ in range(40 if ctx.quick else 1000):
+            vprojs.append(gen_project(ctx.rng, ctx.rng.randint(2, 6), variant=variant))
+    for p in vprojs:
+        variant = p["variant"]
+        if True:
+            if not p["variant"]:
+                continue
+            pd, crash = pd_full(p)
+            if crash:
+                ctx.fail("crash:" + crash.split(":")[1], {"project": p}, crash)
+                continue
+            py = py_full(p)
+            h, own, doc = project_tokens(p)
+            gq.append("mro pyfull %s %d %s %s" % (h, GENERIC, own, doc))
+            go.append(full_lines(p, pd, py)[1])
+            gp.append({"project": p})
+            ctx.case("generic-variant " + repr(sorted(p["modules"].items())), any(len(b_) >= 2 for b_ in p["bases"].values()))
+            ctx.count("generic-variant:" + variant)
+            full_oracle(ctx, p, pd, py, "full")
+    ctx.compare("exec~PyMro(generic base subscripted twice / aliased)", gq, go, gp)
+
     # ---- consumers of the linearisation: mro() flags, is_exception, constructors, overrides / overridden in,
     #      inherited-member tables (real functions ~ model `mro uses`; CPython as direct oracle)
     uprojects = load_corpus("uses")
@@ -1342,18 +1445,25 @@ def run(ctx: Ctx) -> None:
     ctx.extra["exhaustive_cases_uses"] = len(uprojects)
     for _ in range(200 if ctx.quick else 4000):
         uprojects.append(gen_uses(ctx.rng, ctx.rng.randint(5, 10)))
+    for fl in ("name", "call", "private"):     # member forms / names whose run-time meaning the builder does not record
+        for n in range(2, 4 if ctx.quick else 5):
+            for h in hierarchies(n):
+                uprojects.append(gen_uses(ctx.rng, n, h=h, flavour=fl))
+        for _ in range(40 if ctx.quick else 1000):
+            uprojects.append(gen_uses(ctx.rng, ctx.rng.randint(3, 7), flavour=fl))
     ureq, uout, upay = [], [], []
     for p in uprojects:
         line, order, pd, crash = pd_uses(p)
         if crash:
             ctx.fail("crash:" + crash.split(":")[1], {"project": p}, crash)
             continue
-        ureq.append(uses_request(p, order))
+        ureq.append(uses_request(p, order, {c: r["cont"] for c, r in pd.items()}, {c: r["func"] for c, r in pd.items()}))
         uout.append(line)
         upay.append({"project": p})
         py = py_uses(p)
         ctx.case(ureq[-1], any(len(b_) >= 2 for b_ in p["bases"].values()))
         ctx.count("uses:projects")
+        ctx.count("uses:flavour:" + (p.get("flavour") or "plain"))
         for r in pd.values():
             ctx.count("uses:exception-classes", int(r["exc"]))
             ctx.count("uses:constructor:" + (NAMES[r["ctor"][1]] if r["ctor"] else "none"))
